@@ -4,9 +4,9 @@
    plus the length of every variable list).  Proofs: Proof/SizeLin.v, Proof/SizeCodegen.v,
    Proof/Fun2CoreProof.v (sharing lemmas). *)
 From Coq Require Import List ZArith NArith String Bool.
-From SCC Require Import Base.Sexp Lang.FunSyn Lang.CoreSyn Lang.AxSyn Lang.AxSize Lang.FsSize
+From SCC Require Import Base.Sexp Lang.FunSyn Lang.CoreSyn Lang.AxSyn Lang.AxSize Lang.FsSize Lang.CoreSize
      Model.Fun2Core Model.Focus Model.Shrink Model.SizeDefs Model.Linearize Model.Backend
-     Proof.Fun2CoreProof Proof.SizeLin Proof.SizeCodegen Proof.SizeShrink.
+     Model.Uniquify Proof.Fun2CoreProof Proof.SizeLin Proof.SizeCodegen Proof.SizeShrink Proof.SizeFocus.
 Import ListNotations.
 Open Scope N_scope.
 
@@ -21,9 +21,11 @@ Definition fun2core_size_statement (c1 : N) : Prop :=
   forall (p : fcprog) (c : cprog), compile_prog p = Fun2Core.Ok c ->
     size_cprog c <= c1 * size_fcprog p * (1 + fun_vars p).
 
-(* focusing: linear (every non-value argument is named once).  NOT proved. *)
+(* focusing: linear (every non-value argument is named once).  Proved for statements and for the
+   focusing half of Prog::focus (C19_focus_stmt_size, C19_focus_size_partial); the uniquify half, a
+   renaming, is not covered.  c_wprog = node count + clause-context lengths (Lang/CoreSize.v). *)
 Definition focus_size_statement (c2 : N) : Prop :=
-  forall (p : cprog) (q : fsprog), focus_prog p = Backend.Ok q -> fs_wprog q <= c2 * size_cprog p.
+  forall (p : cprog) (q : fsprog), focus_prog p = Backend.Ok q -> fs_wprog q <= c2 * c_wprog p.
 
 (* shrinking, the SHARP form: linear in size x (1 + xtors) x (1 + width).  NOT proved; what is proved
    (C19_shrink_size below) is quadratic in the weighted size, with coefficients from the declarations. *)
@@ -165,3 +167,20 @@ Theorem C19_shrink_size : forall p q, shrink_prog p = SOk q ->
   ax_size_prog q <= fs_wprog p * ((2 + prog_X p * (2 + prog_A p)) + 2 * (1 + prog_X p) * fs_wprog p).
 Proof. exact shrink_size_lemma. Qed.
 Print Assumptions C19_shrink_size.
+
+(* ---------- focusing ---------- *)
+(* a focused statement is at most 4 times as heavy as its source: every non-value argument is named
+   once (3 nodes), the continuation of `bind` is used exactly once *)
+Theorem C19_focus_stmt_size : forall s m s' m',
+  focus_stmt s m = Backend.Ok (s', m') -> fs_wstmt s' <= 4 * c_wstmt s.
+Proof. exact focus_stmt_size. Qed.
+Print Assumptions C19_focus_stmt_size.
+
+(* PARTIAL: Prog::focus = uniquify, then focus every definition; the bound is relative to the
+   uniquified program p1.  MISSING for focus_size_statement 4: c_wprog p1 = c_wprog p (uniquify only
+   renames bound variables; its model substitutes terms for variables under fuel and the size
+   preservation of that pass is not proved). *)
+Theorem C19_focus_size_partial : forall p p1 q,
+  uniquify_prog p = Backend.Ok p1 -> focus_prog p = Backend.Ok q -> fs_wprog q <= 4 * c_wprog p1.
+Proof. exact focus_prog_size_partial_lemma. Qed.
+Print Assumptions C19_focus_size_partial.
